@@ -48,7 +48,7 @@ class Prop(BaseProp):
                 out.append(Case('c%d' % len(out), ty, 'powf', [a], [genvals.enc_leaf(e, w)], tag=kind))
             else:
                 a = genvals.gen_value(rng, ty, genvals.leaf_rand, re_leaf=lambda r: r.uniform(0.2, 4))
-                b = genvals.gen_value(rng, ty, genvals.leaf_rand, re_leaf=lambda r: r.uniform(-3, 3))
+                b = genvals.gen_value(rng, ty, genvals.leaf_rand, re_leaf=lambda r: r.choice([r.uniform(-3, 3), r.uniform(-3, 3), 0.0, 1.0, 2.0, -1.0, -0.0]))
                 out.append(Case('c%d' % len(out), ty, 'powd', [a, b], tag=kind))
         return out
 
